@@ -75,3 +75,18 @@ void bad_out_rbw__own(ed_t r, const ed_t p) {
 	fp_copy(r->z, p->z);
 	r->coord = p->coord;
 }
+
+/* the result is stored over the second operand before that operand's x is read */
+void bad_alias_rw__second(ed_t r, const ed_t p, const ed_t q) {
+	fp_add(r->x, p->x, p->z);
+	fp_add(r->y, q->x, q->z);
+	fp_mul(r->z, r->x, r->y);
+	r->coord = p->coord;
+}
+
+void ok_alias_order(ed_t r, const ed_t p, const ed_t q) {
+	fp_add(r->y, q->x, q->z);
+	fp_add(r->x, p->x, p->z);
+	fp_mul(r->z, r->x, r->y);
+	r->coord = PROJC;
+}
